@@ -20,6 +20,7 @@ CONSTANTS
  DevLeaseCheckSkipped = ${12}
  DevFetchAclOnRequestName = ${13}
  DevStaleOwnedOnSessionReplace = ${14}
+ DevLeaseErrMisindexed = ${MIS:-FALSE}
 INIT Init
 NEXT Next
 INVARIANTS ${15}
@@ -45,6 +46,7 @@ mk Dev_Handler_AclAfterAppend.cfg DataApis 2 1 0 FALSE BothAuto FALSE TRUE NoApi
 mk Dev_Handler_FetchAclOnRequestName.cfg DataApis 1 1 0 FALSE BothAuto FALSE TRUE NoApis none FALSE TRUE FALSE "$C24" "VIEW View"
 mk Dev_HandlerLease_GateAfterAppend.cfg ProduceOnly 2 1 2 TRUE AutoOn FALSE TRUE NoApis lease FALSE FALSE FALSE "$C19" "VIEW View"
 mk Dev_HandlerLease_LeaseCheckSkipped.cfg ProduceOnly 2 1 2 TRUE AutoOn FALSE TRUE NoApis none TRUE FALSE FALSE "$C19" "VIEW View"
+MIS=TRUE mk Dev_HandlerLease_LeaseErrMisindexed.cfg ProduceOnly 2 2 1 TRUE AutoOn FALSE TRUE NoApis none FALSE FALSE FALSE "$C19" "VIEW View"
 mk Dev_HandlerLease_StaleOwnedOnSessionReplace.cfg ProduceOnly 1 3 3 TRUE AutoOn FALSE TRUE NoApis none FALSE FALSE TRUE "$C19" "VIEW View"
 for a in Produce Fetch ListOffsets OffsetForLeaderEpoch DescribeConfigs DescribeBrokerConfigs AlterConfigs CreatePartitions CreateTopics DeleteTopics JoinGroup SyncGroup Heartbeat LeaveGroup OffsetCommit OffsetFetch DescribeGroups ListGroups DeleteGroups; do
  mk Dev_Handler_NoAclOn$a.cfg AllApis 1 1 0 FALSE BothAuto FALSE TRUE NoAcl$a none FALSE FALSE FALSE "$C24" "VIEW View"
